@@ -240,6 +240,494 @@ theorem client_own_callback (hist : List (CD.Ev × List CD.Obs)) :
       simp only [clientRun, List.all_append, Bool.and_eq_true, h2, true_and, h1]
       exact ih m1 ha hs.2
 
+
+/-! ### server roles -/
+
+namespace Srv
+open Ocpp.SD
+
+def pendS (cm : CMon) : List String := cm.out.toList ++ cm.waiting
+
+/-- no accept / reject / stopped among the observations -/
+def noARS : List SD.Obs → Bool
+  | [] => true
+  | .accepted _ _ :: _ => false
+  | .rejected _ _ :: _ => false
+  | .stopped :: _ => false
+  | _ :: os => noARS os
+
+/-- shape of what the send API reports and of the events that produce no ocppj-level observation in the model and in the
+    implementation (disconnect: none; stop: `stopped` if it was running) -/
+def shapeS (e : SD.Ev) (obs : List SD.Obs) : Bool :=
+  match e with
+  | .send c id => (match obs with
+      | [.rejected c' id'] => c' == c && id' == id
+      | .accepted c' id' :: rest => c' == c && id' == id && noARS rest
+      | _ => false)
+  | .disconnect _ => obs.isEmpty
+  | .stop => (match obs with
+      | [] => true
+      | [.stopped] => true
+      | _ => false)
+  | _ => noARS obs
+
+theorem cbGet_cbSet (m : Cbq) (c c' : String) (v : List String) :
+    cbGet (cbSet m c v) c' = if c = c' then v else cbGet m c' := by
+  induction m with
+  | nil =>
+    by_cases h : c = c'
+    · simp [cbSet, cbGet, h]
+    · have : (c == c') = false := by simp [h]
+      simp [cbSet, cbGet, h, List.find?_cons, this]
+  | cons p rest ih =>
+    obtain ⟨k, w⟩ := p
+    simp only [cbSet]
+    by_cases hk : k = c
+    · subst hk
+      by_cases h : k = c'
+      · subst h; simp [cbGet, List.find?_cons]
+      · have : (k == c') = false := by simp [h]
+        simp [cbGet, List.find?_cons, this, h]
+    · have hkc : (k == c) = false := by simp [hk]
+      simp only [hkc, Bool.false_eq_true, if_false]
+      by_cases h : k = c'
+      · subst h
+        have : ¬ c = k := fun e => hk e.symm
+        simp [cbGet, List.find?_cons, this]
+      · have hb : (k == c') = false := by simp [h]
+        have := ih
+        simp only [cbGet, List.find?_cons, hb] at this ⊢
+        exact this
+
+theorem smon_get_set (m : SMon) (c c' : String) (v : CMon) :
+    (m.set c v).get c' = if c = c' then v else m.get c' := by
+  induction m with
+  | nil =>
+    by_cases h : c = c'
+    · simp [SMon.set, SMon.get, h]
+    · have : (c == c') = false := by simp [h]
+      simp [SMon.set, SMon.get, h, List.find?_cons, this]
+  | cons p rest ih =>
+    obtain ⟨k, w⟩ := p
+    simp only [SMon.set]
+    by_cases hk : k = c
+    · subst hk
+      by_cases h : k = c'
+      · subst h; simp [SMon.get, List.find?_cons]
+      · have : (k == c') = false := by simp [h]
+        simp [SMon.get, List.find?_cons, this, h]
+    · have hkc : (k == c) = false := by simp [hk]
+      simp only [hkc, Bool.false_eq_true, if_false]
+      by_cases h : k = c'
+      · subst h
+        have : ¬ c = k := fun e => hk e.symm
+        simp [SMon.get, List.find?_cons, this]
+      · have hb : (k == c') = false := by simp [h]
+        have := ih
+        simp only [SMon.get, List.find?_cons, hb] at this ⊢
+        exact this
+
+/-- the callback lists mirror, client by client, outstanding ++ waiting of the specification state -/
+def Rel (m : Cbq) (mon : SMon) : Prop := ∀ c, cbGet m c = pendS (mon.get c)
+
+theorem conclude_own (m : Cbq) (mon : SMon) (c kind id : String) (rest : List String) (hR : Rel m mon)
+    (hp : pendS (mon.get c) = id :: rest) (cm' : CMon) (hp' : pendS cm' = rest) :
+    Rel (conclude m c kind id).1 (mon.set c cm') ∧ (conclude m c kind id).2.all ownDel = true := by
+  have hg : cbGet m c = id :: rest := by rw [hR c, hp]
+  simp only [conclude, hg]
+  refine ⟨?_, by simp [ownDel]⟩
+  intro c'
+  rw [cbGet_cbSet, smon_get_set]
+  by_cases h : c = c'
+  · simp [h, hp']
+  · simp [h, hR c']
+
+theorem foldS_own (w r : Bool) : ∀ (obs : List SD.Obs) (m : Cbq) (mon mon' : SMon),
+    Rel m mon → SMon.obsList w r mon obs = some mon' → noARS obs = true →
+    Rel (foldS m obs).1 mon' ∧ (foldS m obs).2.all ownDel = true := by
+  intro obs
+  induction obs with
+  | nil =>
+    intro m mon mon' hR h _
+    simp only [SMon.obsList, Option.some.injEq] at h; subst h
+    exact ⟨hR, rfl⟩
+  | cons o os ih =>
+    intro m mon mon' hR h hs
+    simp only [SMon.obsList] at h
+    cases hm : SMon.obs w r mon o with
+    | none => simp [hm] at h
+    | some m1 =>
+      simp only [hm] at h
+      have step : ∀ (m2 : Cbq) (d : List Del), onSObs m o = (m2, d) → Rel m2 m1 → d.all ownDel = true → noARS os = true →
+          Rel (foldS m (o :: os)).1 mon' ∧ (foldS m (o :: os)).2.all ownDel = true := by
+        intro m2 d ho hR2 hd hs'
+        have := ih m2 m1 mon' hR2 h hs'
+        simp only [foldS, ho, List.all_append, Bool.and_eq_true]
+        exact ⟨this.1, hd, this.2⟩
+      cases o with
+      | accepted c id => simp [noARS] at hs
+      | rejected c id => simp [noARS] at hs
+      | stopped => simp [noARS] at hs
+      | panic => simp [SMon.obs] at hm
+      | blocked => simp [SMon.obs] at hm
+      | dead => simp [SMon.obs] at hm
+      | wrote c id =>
+        simp only [SMon.obs] at hm
+        split at hm
+        · rename_i hc
+          simp only [Option.some.injEq] at hm; subst hm
+          refine step m [.wrote c id] rfl ?_ (by simp [ownDel]) (by simpa [noARS] using hs)
+          intro c'
+          rw [smon_get_set]
+          by_cases h' : c = c'
+          · subst h'
+            obtain ⟨_, ho, hh⟩ := hc
+            cases hw : (mon.get c).waiting with
+            | nil => simp [hw] at hh
+            | cons a t =>
+              simp [hw] at hh; subst hh
+              simp [hR c, pendS, ho, hw]
+          · simp [h', hR c']
+        · cases hm
+      | resp c id =>
+        simp only [SMon.obs] at hm
+        split at hm
+        · rename_i hc
+          simp only [Option.some.injEq] at hm; subst hm
+          have := conclude_own m mon c "resp" id (mon.get c).waiting hR (by simp [pendS, hc]) { (mon.get c) with out := none } (by simp [pendS])
+          exact step _ _ rfl this.1 this.2 (by simpa [noARS] using hs)
+        · cases hm
+      | errResp c id =>
+        simp only [SMon.obs] at hm
+        split at hm
+        · rename_i hc
+          simp only [Option.some.injEq] at hm; subst hm
+          have := conclude_own m mon c "err" id (mon.get c).waiting hR (by simp [pendS, hc]) { (mon.get c) with out := none } (by simp [pendS])
+          exact step _ _ rfl this.1 this.2 (by simpa [noARS] using hs)
+        · cases hm
+      | cancel c id t =>
+        cases t with
+        | true =>
+          simp only [SMon.obs] at hm
+          split at hm
+          · rename_i hc
+            simp only [Option.some.injEq] at hm; subst hm
+            have := conclude_own m mon c "timeout" id (mon.get c).waiting hR (by simp [pendS, hc.1]) { (mon.get c) with out := none } (by simp [pendS])
+            exact step _ _ rfl this.1 this.2 (by simpa [noARS] using hs)
+          · cases hm
+        | false =>
+          simp only [SMon.obs] at hm
+          split at hm
+          · rename_i hc
+            simp only [Option.some.injEq] at hm; subst hm
+            obtain ⟨ho, hh⟩ := hc
+            cases hw : (mon.get c).waiting with
+            | nil => simp [hw] at hh
+            | cons a t =>
+              simp [hw] at hh; subst hh
+              have := conclude_own m mon c "write" a t hR (by simp [pendS, ho, hw]) { (mon.get c) with waiting := (mon.get c).waiting.tail } (by simp [pendS, ho, hw])
+              exact step _ _ rfl this.1 this.2 (by simpa [noARS] using hs)
+          · cases hm
+
+/-- with nothing outstanding or waiting anywhere the specification allows no observation at all (besides accept / reject / stopped) -/
+theorem no_obs_when_idle (w r : Bool) (mon mon' : SMon) (obs : List SD.Obs) (hs : noARS obs = true)
+    (hidle : ∀ c, pendS (mon.get c) = []) (h : SMon.obsList w r mon obs = some mon') : obs = [] := by
+  cases obs with
+  | nil => rfl
+  | cons o os =>
+    exfalso
+    simp only [SMon.obsList] at h
+    have hnone : SMon.obs w r mon o = none := by
+      cases o with
+      | accepted c id => simp [noARS] at hs
+      | rejected c id => simp [noARS] at hs
+      | stopped => simp [noARS] at hs
+      | panic => rfl
+      | blocked => rfl
+      | dead => rfl
+      | wrote c id =>
+        have := hidle c
+        simp only [pendS, List.append_eq_nil_iff] at this
+        simp [SMon.obs, this.2]
+      | resp c id =>
+        have := hidle c
+        simp only [pendS, List.append_eq_nil_iff] at this
+        cases ho : (mon.get c).out with
+        | none => simp [SMon.obs, ho]
+        | some x => simp [ho] at this
+      | errResp c id =>
+        have := hidle c
+        simp only [pendS, List.append_eq_nil_iff] at this
+        cases ho : (mon.get c).out with
+        | none => simp [SMon.obs, ho]
+        | some x => simp [ho] at this
+      | cancel c id t =>
+        have := hidle c
+        simp only [pendS, List.append_eq_nil_iff] at this
+        cases t with
+        | true =>
+          cases ho : (mon.get c).out with
+          | none => simp [SMon.obs, ho]
+          | some x => simp [ho] at this
+        | false => simp [SMon.obs, this.2]
+    simp [hnone] at h
+
+/-- the relation between the callback lists and the specification state of a server endpoint -/
+def RelS (m : Cbq) (ms : SMonSt) : Prop :=
+  Rel m ms.m ∧ (ms.running = false → ∀ c, pendS (ms.m.get c) = [])
+
+/-- what `SMonSt.event` judged: the observations against the pre-processed state -/
+def pre (ms : SMonSt) (e : SD.Ev) : SMonSt :=
+  match e with
+  | .connect c => { ms with m := ms.m.set c { (ms.m.get c) with live := ms.running } }
+  | .disconnect c => { ms with m := ms.m.set c {} }
+  | .start => { ms with running := true }
+  | .stop => { ms with running := false }
+  | _ => ms
+
+theorem event_core (ms ms' : SMonSt) (e : SD.Ev) (obs : List SD.Obs) (h : SMonSt.event ms e obs = some ms') :
+    ∃ m', SMon.obsList (decide (e = .wait)) (ms.running || decide (e = .stop)) (pre ms e).m obs = some m' ∧
+      ms' = { pre ms e with m := m' } := by
+  cases e <;> simp only [SMonSt.event, pre, Bool.not_true, Bool.false_eq_true, if_false] at h ⊢ <;>
+    (repeat' (split at h)) <;>
+    first
+      | (cases h; exact ⟨_, by assumption, rfl⟩)
+      | cases h
+
+theorem drain_own (m : Cbq) (c : String) : (drain m c).2.all ownDel = true := by
+  simp [drain, List.all_map, ownDel, Function.comp_def]
+
+theorem drainAll_own : ∀ (ks : List String) (m : Cbq), (drainAll m ks).2.all ownDel = true
+  | [], _ => rfl
+  | c :: cs, m => by
+    simp only [drainAll, List.all_append, Bool.and_eq_true]
+    exact ⟨drain_own m c, drainAll_own cs _⟩
+
+theorem drainAll_empty : ∀ (ks : List String) (m : Cbq) (c : String), (c ∈ ks ∨ cbGet m c = []) → cbGet (drainAll m ks).1 c = []
+  | [], m, c, h => by
+    rcases h with h | h
+    · simp at h
+    · simpa [drainAll] using h
+  | k :: ks, m, c, h => by
+    simp only [drainAll]
+    apply drainAll_empty ks
+    by_cases hk : k = c
+    · right; simp [drain, cbGet_cbSet, hk]
+    · rcases h with h | h
+      · simp only [List.mem_cons] at h
+        rcases h with h | h
+        · exact absurd h.symm hk
+        · exact Or.inl h
+      · right; simp [drain, cbGet_cbSet, hk, h]
+
+theorem cbGet_notin (m : Cbq) (c : String) (h : c ∉ m.map (·.1)) : cbGet m c = [] := by
+  simp only [cbGet]
+  have : m.find? (fun p => p.1 == c) = none := by
+    simp only [List.find?_eq_none]
+    intro p hp
+    simp only [List.mem_map, not_exists, not_and] at h
+    simpa using fun e => h p hp e
+  simp [this]
+
+theorem smon_reset_get (m : SMon) (c : String) : (SMon.get (m.map (fun p => (p.1, ({} : CMon)))) c) = {} := by
+  simp only [SMon.get]
+  cases h : (m.map (fun p => (p.1, ({} : CMon)))).find? (fun p => p.1 == c) with
+  | none => rfl
+  | some p =>
+    have := List.mem_of_find?_eq_some h
+    simp only [List.mem_map] at this
+    obtain ⟨q, _, rfl⟩ := this
+    rfl
+
+/-- shape, given whether the endpoint was running (Stop of a running endpoint reports `stopped`) -/
+def shapeR (running : Bool) (e : SD.Ev) (obs : List SD.Obs) : Bool :=
+  match e with
+  | .stop => if running then obs == [.stopped] else obs.isEmpty
+  | _ => shapeS e obs
+
+/-- **own callback, server roles, one event** -/
+theorem server_event_own (m : Cbq) (ms ms' : SMonSt) (e : SD.Ev) (obs : List SD.Obs) (hR : RelS m ms)
+    (h0 : SMonSt.event ms e obs = some ms') (hs : shapeR ms.running e obs = true) :
+    RelS (serverLayer m e obs).1 ms' ∧ (serverLayer m e obs).2.all ownDel = true := by
+  obtain ⟨m', hm, rfl⟩ := event_core ms ms' e obs h0
+  obtain ⟨hrel, hidle⟩ := hR
+  -- the generic case: observations without accept / reject / stopped folded from a related state
+  have generic : ∀ (m0 : Cbq) (ms0 : SMonSt) (w r : Bool), Rel m0 ms0.m → (ms0.running = false → ∀ c, pendS (ms0.m.get c) = []) →
+      SMon.obsList w r ms0.m obs = some m' → noARS obs = true →
+      RelS (foldS m0 obs).1 { ms0 with m := m' } ∧ (foldS m0 obs).2.all ownDel = true := by
+    intro m0 ms0 w r h1 h2 h3 h4
+    have := foldS_own w r obs m0 ms0.m m' h1 h3 h4
+    refine ⟨⟨this.1, ?_⟩, this.2⟩
+    intro hr
+    have hobs := no_obs_when_idle w r ms0.m m' obs h4 (h2 hr) h3
+    subst hobs
+    simp only [SMon.obsList, Option.some.injEq] at h3
+    subst h3
+    exact h2 hr
+  cases e with
+  | send c id =>
+    simp only [shapeR, shapeS] at hs
+    simp only [pre] at hm ⊢
+    match obs, hs with
+    | [.rejected c' id'], hs =>
+      simp only [Bool.and_eq_true, beq_iff_eq] at hs
+      obtain ⟨rfl, rfl⟩ := hs
+      simp only [SMon.obsList, SMon.obs, Option.some.injEq] at hm; subst hm
+      simp only [serverLayer, foldS, onSObs, List.append_nil]
+      refine ⟨⟨?_, hidle⟩, by simp [ownDel]⟩
+      intro c''
+      rw [cbGet_cbSet, cbGet_cbSet]
+      by_cases hc : c' = c''
+      · subst hc; simp [cbGet_cbSet, hrel c']
+      · simp [hc, cbGet_cbSet, hrel c'']
+    | .accepted c' id' :: rest, hs =>
+      simp only [Bool.and_eq_true, beq_iff_eq] at hs
+      obtain ⟨⟨rfl, rfl⟩, hr⟩ := hs
+      simp only [SMon.obsList, SMon.obs] at hm
+      by_cases hc : (ms.m.get c').live = true ∧ (ms.running || decide (SD.Ev.send c' id' = SD.Ev.stop)) = true
+      · rw [if_pos hc] at hm
+        have hrun : ms.running = true := by
+          have := hc.2; simpa using this
+        have := foldS_own _ _ rest (cbSet m c' (cbGet m c' ++ [id'])) (ms.m.set c' { (ms.m.get c') with waiting := (ms.m.get c').waiting ++ [id'] }) m'
+          (by
+            intro c''
+            rw [cbGet_cbSet, smon_get_set]
+            by_cases h' : c' = c''
+            · subst h'; simp [hrel c', pendS, List.append_assoc]
+            · simp [h', hrel c''])
+          hm hr
+        simp only [serverLayer, foldS, onSObs]
+        refine ⟨⟨this.1, ?_⟩, by simpa [ownDel] using this.2⟩
+        intro hf; simp [hrun] at hf
+      · rw [if_neg hc] at hm
+        cases hm
+  | connect c =>
+    have := generic m (pre ms (.connect c)) _ _ (by
+        intro c'
+        simp only [pre]
+        rw [smon_get_set]
+        by_cases h' : c = c'
+        · subst h'; simp [hrel c, pendS]
+        · simp [h', hrel c']) (by
+        intro hr c'
+        simp only [pre] at hr ⊢
+        rw [smon_get_set]
+        by_cases h' : c = c'
+        · subst h'; simpa [pendS] using hidle hr c
+        · simpa [h'] using hidle hr c') hm (by simpa [shapeR, shapeS] using hs)
+    simpa [serverLayer] using this
+  | disconnect c =>
+    simp only [shapeR, shapeS, List.isEmpty_iff] at hs
+    subst hs
+    simp only [SMon.obsList, Option.some.injEq] at hm; subst hm
+    simp only [serverLayer, foldS, List.nil_append]
+    refine ⟨⟨?_, ?_⟩, drain_own m c⟩
+    · intro c'
+      simp only [drain, pre]
+      rw [cbGet_cbSet, smon_get_set]
+      by_cases h' : c = c'
+      · simp [h', pendS]
+      · simp [h', hrel c']
+    · intro hr c'
+      simp only [pre] at hr ⊢
+      rw [smon_get_set]
+      by_cases h' : c = c'
+      · simp [h', pendS]
+      · simpa [h'] using hidle hr c'
+  | stop =>
+    simp only [shapeR] at hs
+    have hall : ∀ c, cbGet (drainAll m (m.map (·.1))).1 c = [] := by
+      intro c
+      apply drainAll_empty
+      by_cases hc : c ∈ m.map (·.1)
+      · exact Or.inl hc
+      · exact Or.inr (cbGet_notin m c hc)
+    by_cases hrun : ms.running = true
+    · simp only [hrun, if_true, beq_iff_eq] at hs
+      subst hs
+      simp only [pre, SMon.obsList, SMon.obs, Option.some.injEq] at hm; subst hm
+      simp only [serverLayer, foldS, onSObs, List.append_nil]
+      refine ⟨⟨?_, ?_⟩, by simpa [ownDel] using drainAll_own _ m⟩
+      · intro c; rw [hall c, smon_reset_get]; rfl
+      · intro _ c; rw [smon_reset_get]; rfl
+    · have hrun' : ms.running = false := by simpa using hrun
+      simp only [hrun', Bool.false_eq_true, if_false, List.isEmpty_iff] at hs
+      subst hs
+      simp only [pre, SMon.obsList, Option.some.injEq] at hm; subst hm
+      simp only [serverLayer, foldS, List.nil_append]
+      refine ⟨⟨?_, ?_⟩, drainAll_own _ m⟩
+      · intro c; rw [hall c, hidle hrun' c]
+      · intro _ c; exact hidle hrun' c
+  | reply c id b =>
+    have := generic m ms _ _ hrel hidle (by simpa [pre] using hm) (by simpa [shapeR, shapeS] using hs)
+    simpa [serverLayer, pre] using this
+  | wait =>
+    have := generic m ms _ _ hrel hidle (by simpa [pre] using hm) (by simpa [shapeR, shapeS] using hs)
+    simpa [serverLayer, pre] using this
+  | writeFail c b =>
+    have := generic m ms _ _ hrel hidle (by simpa [pre] using hm) (by simpa [shapeR, shapeS] using hs)
+    simpa [serverLayer, pre] using this
+  | start =>
+    have := generic m (pre ms .start) _ _ (by simpa [pre] using hrel) (by intro hr; simp [pre] at hr) hm (by simpa [shapeR, shapeS] using hs)
+    simpa [serverLayer] using this
+
+/-- run the protocol layer of a server role over a whole ocppj-level history -/
+def serverRun (m : Cbq) : List (SD.Ev × List SD.Obs) → List Del
+  | [] => []
+  | (e, obs) :: rest => (serverLayer m e obs).2 ++ serverRun (serverLayer m e obs).1 rest
+
+def acceptsS : SMonSt → List (SD.Ev × List SD.Obs) → Bool
+  | _, [] => true
+  | ms, (e, obs) :: rest => match SMonSt.event ms e obs with
+    | none => false
+    | some ms' => shapeR ms.running e obs && acceptsS ms' rest
+
+/-- **own callback, server roles, all histories**: for every ocppj-level history of a central system / CSMS that the
+    per-client dispatcher specification accepts — any length, any number of clients, connects, disconnects, stop and
+    restart — every delivery of the protocol layer goes to the callback that was passed with that very request (or is the
+    disconnect notification of a drained callback), and no conclusion finds the callback list of its client empty -/
+theorem server_own_callback (hist : List (SD.Ev × List SD.Obs)) :
+    ∀ (m : Cbq) (ms : SMonSt), RelS m ms → acceptsS ms hist = true → (serverRun m hist).all ownDel = true := by
+  induction hist with
+  | nil => intro _ _ _ _; rfl
+  | cons p rest ih =>
+    obtain ⟨e, obs⟩ := p
+    intro m ms hR ha
+    simp only [acceptsS] at ha
+    cases hm : SMonSt.event ms e obs with
+    | none => simp [hm] at ha
+    | some ms' =>
+      simp only [hm, Bool.and_eq_true] at ha
+      have ⟨h1, h2⟩ := server_event_own m ms ms' e obs hR hm ha.1
+      simp only [serverRun, List.all_append, Bool.and_eq_true, h2, true_and]
+      exact ih _ ms' h1 ha.2
+
+theorem relS_init : RelS [] {} := by
+  refine ⟨?_, ?_⟩
+  · intro c; simp [cbGet, SMon.get, pendS]
+  · intro _ c; simp [SMon.get, pendS]
+
+
+/-- the event-by-event history of a run of the server dispatcher model -/
+def historyS (s : SD.St) : List SD.Ev → List (SD.Ev × List SD.Obs)
+  | [] => []
+  | e :: es => (e, (SD.step s e).2) :: historyS (SD.step s e).1 es
+
+/-- non-vacuity: a run of the server dispatcher model with two clients, a time-out, a write failure, a disconnect with
+    requests waiting and a stop with requests waiting is accepted by the specification with the required shapes, the
+    theorem applies, and the deliveries are the expected ones -/
+theorem server_own_callback_instance :
+    let evs : List SD.Ev := [.start, .connect "x", .connect "y", .send "x" "a", .send "y" "b", .send "x" "c",
+                             .reply "x" "a" false, .wait, .writeFail "y" true, .send "y" "d", .reply "y" "b" true,
+                             .send "x" "e", .send "x" "f", .disconnect "x", .writeFail "y" false, .send "y" "g", .send "y" "h", .stop]
+    acceptsS {} (historyS (SD.init 0) evs) = true ∧ (serverRun [] (historyS (SD.init 0) evs)).all ownDel = true ∧
+    (serverRun [] (historyS (SD.init 0) evs)).filter (fun d => match d with | .deliv _ _ _ => true | _ => false) =
+      [.deliv "a" "resp" "a", .deliv "b" "timeout" "b", .deliv "c" "timeout" "c", .deliv "d" "write" "d",
+       .deliv "e" "disc" "", .deliv "f" "disc" "", .deliv "g" "disc" "", .deliv "h" "disc" ""] := by
+  decide
+
+end Srv
+
 /-- the model's own histories have the send shape and are accepted (refinement), so the theorem applies to every
     well-formed run of the client endpoint model: composition of the two layers -/
 theorem client_endpoint_own_callback_instance :
